@@ -1,20 +1,14 @@
 """C12 — runtime documents are the source operation plus exactly the fragments it needs."""
 import vlib
 
-KNOWN = {
-    "accepted-document-unspread-fragment-undefined-spread-panic",
-}
+KNOWN = set()   # no known finding is left for C12 (see findings/fixed.json: c0c1a59, c67e45e)
 
 
 def classify(case, kind):
-    """A failing case carries the known-finding classes the harness attached to it: the only one is an
-    accepted document (real `check` silent) for which the printer panics with 'fragment not found'
-    (a fragment definition that no operation spreads is never validated, so it may spread an undefined
-    fragment).  Only failures of the property itself can be known findings; a model/implementation
-    disagreement never is."""
-    if kind != "prop":
-        return set()
-    return set(case.get("classes", [])) & KNOWN
+    """No failure class of C12 is a known finding any more: the last one (an accepted document whose unspread
+    fragment spreads an undefined fragment, so that the printers panic) was repaired in /repo c67e45e; such a
+    case is now reported as a VIOLATION."""
+    return set(case.get("classes", [])) & KNOWN if kind == "prop" else set()
 
 
 def replay(ctx, path):
@@ -56,6 +50,9 @@ def run(ctx, harness_extra=()):
             "documents are taken after import resolution (C13) as lists of definitions; 'accepted' = the real check raised no diagnostic, or "
             "(where the checker was not run) the document is closed: unique fragment names, every spread defined",
             "C12_to_json_roundtrip: guard wf_def (operation, fragment and inline-fragment selection sets are non-empty, as the grammar guarantees)",
-            "C12_runtime_exact: guard every name in the computed closure is defined (otherwise the code panics: C12_undefined_spread_panics_refuted)",
+            "C12_operation_text_denotes / C12_fragment_text_denotes: guard spreads_defined_b (every spread in the document names a defined "
+            "fragment; outside it the printers panic: C12_guard_necessary). The real check enforces it since /repo c67e45e; the run tests "
+            "'accepted implies spreads_defined_b' on every accepted document and C12_accepted_document_denotes states the property for "
+            "accepted documents with the checker as an oracle satisfying exactly that",
         ],
     )
